@@ -15,9 +15,9 @@ import (
 )
 
 type JMember struct {
-	N      B     `json:"n"`      // member name bytes (arrays: empty)
-	NIsInt bool  `json:"nisint"` // name is a decimal int64 literal
-	NI     B     `json:"ni"`     // its value (8 bytes) when NIsInt
+	N      B     `json:"n"`       // member name bytes (arrays: empty)
+	NIsInt bool  `json:"nisint"`  // name is a decimal int64 literal
+	NI     B     `json:"ni"`      // its value (8 bytes) when NIsInt
 	NIsU   bool  `json:"nisuint"` // name is a decimal uint64 literal
 	NU     B     `json:"nu"`
 	V      JDump `json:"v"`
@@ -26,14 +26,14 @@ type JDump struct {
 	K     string    `json:"k"` // null bool num str arr obj
 	B     B         `json:"b"` // str: content bytes; bool: [0|1]
 	IsInt bool      `json:"isint"`
-	I     B         `json:"i"`    // num/str: int64 value when IsInt
-	F     B         `json:"f"`    // num: float64 bits
-	FInt  bool      `json:"fint"` // num: the value is integral and fits int64
-	FI    B         `json:"fi"`   // that integer
+	I     B         `json:"i"`      // num/str: int64 value when IsInt
+	F     B         `json:"f"`      // num: float64 bits
+	FInt  bool      `json:"fint"`   // num: the value is integral and fits int64
+	FI    B         `json:"fi"`     // that integer
 	IsU   bool      `json:"isuint"` // num/str: decimal uint64 literal
 	U     B         `json:"u"`
-	F32   B         `json:"f32"` // num: float32 bits of the literal (strconv, 32-bit rounding)
-	F32D  B         `json:"f32d"` // num: float32 bits obtained by narrowing the float64 value (double rounding)
+	F32   B         `json:"f32"`           // num: float32 bits of the literal (strconv, 32-bit rounding)
+	F32D  B         `json:"f32d"`          // num: float32 bits obtained by narrowing the float64 value (double rounding)
 	Src   string    `json:"src,omitempty"` // TLC-made dumps only: which atom to print a number from (i | u | f | f32)
 	E     []JMember `json:"e"`
 }
